@@ -50,6 +50,26 @@ import PyamgV.Driver.ExtE27
 import PyamgV.Driver.ExtE28
 import PyamgV.Driver.ExtE29
 import PyamgV.Driver.ExtE30
+import PyamgV.Driver.ExtE31
+import PyamgV.Driver.ExtE32
+import PyamgV.Driver.ExtE33
+import PyamgV.Driver.ExtE34
+import PyamgV.Driver.ExtE35
+import PyamgV.Driver.ExtE36
+import PyamgV.Driver.ExtE37
+import PyamgV.Driver.ExtE38
+import PyamgV.Driver.ExtE39
+import PyamgV.Driver.ExtE40
+import PyamgV.Driver.ExtE41
+import PyamgV.Driver.ExtE42
+import PyamgV.Driver.ExtE43
+import PyamgV.Driver.ExtE44
+import PyamgV.Driver.ExtE45
+import PyamgV.Driver.ExtE46
+import PyamgV.Driver.ExtE47
+import PyamgV.Driver.ExtE48
+import PyamgV.Driver.ExtE49
+import PyamgV.Driver.ExtE50
 /-! The line-protocol driver: one request per line, one reply per line. Unknown ops reply `bad-op`. -/
 namespace PyamgV.Drv
 
@@ -57,7 +77,8 @@ def handlers : List (List String → Option String) :=
   [Relax.handle, Graph.handle, Num.handle, C01.handle, C02.handle, C03.handle, C04.handle, C05.handle, C06.handle, C07.handle, C08.handle, C09.handle, C10.handle, C11.handle, C12.handle, C13.handle, C14.handle, C15.handle, C16.handle, C17.handle, C18.handle, C19.handle, C20.handle,
    ExtGraph.handle, ExtPairwise.handle, ExtMisc.handle,
    ExtE5.handle, ExtE6.handle, ExtE7.handle, ExtE8.handle, ExtE9.handle, ExtE10.handle, ExtE11.handle, ExtE12.handle, ExtE13.handle, ExtE14.handle,
-   ExtE15.handle, ExtE16.handle, ExtE17.handle, ExtE18.handle, ExtE19.handle, ExtE20.handle, ExtE21.handle, ExtE22.handle, ExtE23.handle, ExtE24.handle, ExtE25.handle, ExtE26.handle, ExtE27.handle, ExtE28.handle, ExtE29.handle, ExtE30.handle]
+   ExtE15.handle, ExtE16.handle, ExtE17.handle, ExtE18.handle, ExtE19.handle, ExtE20.handle, ExtE21.handle, ExtE22.handle, ExtE23.handle, ExtE24.handle, ExtE25.handle, ExtE26.handle, ExtE27.handle, ExtE28.handle, ExtE29.handle, ExtE30.handle,
+   ExtE31.handle, ExtE32.handle, ExtE33.handle, ExtE34.handle, ExtE35.handle, ExtE36.handle, ExtE37.handle, ExtE38.handle, ExtE39.handle, ExtE40.handle, ExtE41.handle, ExtE42.handle, ExtE43.handle, ExtE44.handle, ExtE45.handle, ExtE46.handle, ExtE47.handle, ExtE48.handle, ExtE49.handle, ExtE50.handle]
 
 def dispatch (toks : List String) : String :=
   match handlers.findSome? (fun h => h toks) with
